@@ -360,3 +360,56 @@ func (v *version) copyIndependent() string {
 	}
 	return ""
 }
+
+// History stream (C14): the same operations on the same inputs, executed in forward or reverse order by two separate
+// processes; bin/check compares the two outputs key by key. A result that depends on what was called before (caches,
+// memoisation, pooled state) differs between the two runs.
+func streamHist(reverse bool) {
+	type job struct {
+		key string
+		run func() string
+	}
+	var jobs []job
+	for _, v := range versions {
+		v := v
+		zero := make([]byte, v.n)
+		var objs [][]byte
+		bases := [][]byte{zero, v.randomWF(), v.randomWF(), v.randomWF()}
+		for _, b := range bases {
+			objs = append(objs, b)
+			for _, mt := range v.metrics {
+				for _, val := range mt.values {
+					if nb, err := v.set(b, mt.abv, val); err == nil {
+						objs = append(objs, nb)
+					}
+				}
+			}
+		}
+		for i := 0; i < 300; i++ {
+			objs = append(objs, v.randomWF())
+		}
+		seen := map[string]bool{}
+		for _, b := range objs {
+			b := b
+			if seen[string(b)] {
+				continue
+			}
+			seen[string(b)] = true
+			jobs = append(jobs, job{"C " + v.name + " history obs:" + hexB(b), func() string { return v.observe(b) }})
+			vec := v.vector(b)
+			jobs = append(jobs, job{"C " + v.name + " history parse:" + hexS(vec), func() string { return v.fullOutcome(vec) }})
+			cut := vec[:len(vec)*2/3]
+			jobs = append(jobs, job{"C " + v.name + " history parse:" + hexS(cut), func() string { return v.fullOutcome(cut) }})
+			jobs = append(jobs, job{"C " + v.name + " history parse:" + hexS(vec+"/"), func() string { return v.fullOutcome(vec + "/") }})
+		}
+	}
+	if reverse {
+		for i, j := 0, len(jobs)-1; i < j; i, j = i+1, j-1 {
+			jobs[i], jobs[j] = jobs[j], jobs[i]
+		}
+	}
+	for _, j := range jobs {
+		out.WriteString(j.key + " | " + strings.ReplaceAll(j.run(), " ", "_") + "\n")
+		nOps++
+	}
+}
